@@ -32,12 +32,7 @@ def main():
         p = json.loads(line)
         props[p["id"]] = p
     for k in ids:
-        p = props[k]
-        text = "ID: %s\nTitle: %s\n\nStatement: %s\n" % (k, p.get("title", ""), p.get("statement", ""))
-        if p.get("quantifier"):
-            text += "\nQuantifier: %s\n" % p["quantifier"]
-        if p.get("anchors"):
-            text += "\nAnchors: %s\n" % (json.dumps(p["anchors"], ensure_ascii=False) if not isinstance(p["anchors"], str) else p["anchors"])
+        text = open("/verif/tools/seed_props/%s.txt" % k).read()  # the property text only, as given to every earlier wave
         for name in (k, k + suf):
             if not os.path.exists("/tmp/mut/%s.txt" % name):
                 open("/tmp/mut/%s.txt" % name, "w").write(text)
